@@ -39,6 +39,15 @@ ASSUMPTIONS = [
     "bound float64: 1e-9 relative + 1e-11*(S+K); float32 inputs: 2e-5 relative + 2e-6*(S+K)",
     "calls outside the property's domain (t<=0, sigma<=0, M<S, parameters outside the stated ranges) are not judged here (see C18)",
 ]
+ANCHORS = ['pfhedge.nn.functional:d1',
+           'pfhedge.nn.functional:d2',
+           'pfhedge.nn.functional:bs_european_price',
+           'pfhedge.nn.functional:bs_european_binary_price',
+           'pfhedge.nn.functional:bs_american_binary_price',
+           'pfhedge.nn.functional:bs_lookback_price',
+           'pfhedge.nn.modules.bs._base:acquire_params_from_derivative_0',
+           'pfhedge.nn.modules.bs._base:acquire_params_from_derivative_1',
+           'pfhedge.nn.modules.bs._base:acquire_params_from_derivative_2']
 DECIDING = ["price.european", "price.european_binary", "price.american_binary", "price.lookback", "module.plumbing"]
 REQUIRED_BRANCHES = ["american_binary.max==strike>spot", "european.put", "european_binary.put", "american_binary.max>=strike", "american_binary.max<strike",
                      "lookback.max>=strike", "lookback.max<strike", "strike!=1"]
